@@ -159,6 +159,15 @@ def erf(x):
     return scipy.special.erf(x)
 
 
+def erfc(x):
+    """complementary error function, defined as 1 - erf (its own derivative rule follows from erf's)"""
+    if isinstance(x, Dual) or is_sym(x) or (isinstance(x, float) and math.isinf(x)):
+        return 1 - erf(x)
+    import scipy.special
+
+    return scipy.special.erfc(x)
+
+
 def exp1(x):
     """exponential integral E1 (x > 0)"""
     if isinstance(x, Dual):
